@@ -27,7 +27,7 @@ var R = hx.NewRecorder("C06", "cases = (server mode gm|auto|tls, client kind gm|
 	"non-trivial = handshake completed with data moved each way, or a forbidden combination that reached the peer's first flight; distinct by hash of the case description")
 
 func TestMain(m *testing.M) {
-	R.Require("clientcert:ec", "clientcert:via_intermediate", "ekm_long_input", "reconnect", "reconnect_resumed", "interop_suite:c030", "interop_suite:9d", "interop_suite:c02f", "interop_suite:c014", "interop_suite:cca8", "interop_suite:2f", "ref_peer", "readbuf<record", "mode:gm", "mode:auto", "mode:tls", "suite:e013", "suite:e053", "tls10", "tls11", "tls12", "auth:0", "auth:1", "auth:2", "auth:3", "auth:4",
+	R.Require("autoswitch_history", "clientcert:ec", "clientcert:via_intermediate", "ekm_long_input", "reconnect", "reconnect_resumed", "interop_suite:c030", "interop_suite:9d", "interop_suite:c02f", "interop_suite:c014", "interop_suite:cca8", "interop_suite:2f", "ref_peer", "readbuf<record", "mode:gm", "mode:auto", "mode:tls", "suite:e013", "suite:e053", "tls10", "tls11", "tls12", "auth:0", "auth:1", "auth:2", "auth:3", "auth:4",
 		"clientcert:untrusted", "clientcert:callback_untrusted", "certsource:callbacks", "stdlib_client", "stdlib_server", "passive_decoder", "payload>16KiB", "fragment==1", "must_fail", "must_succeed")
 	hx.Main(m, R)
 }
@@ -1060,3 +1060,53 @@ func TestC06_ReferencePeer(t *testing.T) {
 	})
 }
 
+
+// One auto-switch server configuration (from the constructor, and one built by hand from callbacks) serves a drawn
+// sequence of GMSSL and TLS clients: what a connection gets depends on its own ClientHello, not on who came before.
+func TestC06_AutoSwitchHistories(t *testing.T) {
+	p := tlsx.GetPKI()
+	n := 0
+	hx.Check(t, hx.N(60, 800), func(t *rapid.T) {
+		n++
+		std := p.RSASrv
+		if rapid.Bool().Draw(t, "ecstd") {
+			std = p.ECSrv
+		}
+		var scfg *gmtls.Config
+		if rapid.Bool().Draw(t, "constructor") {
+			var err error
+			if scfg, err = gmtls.NewBasicAutoSwitchConfig(&p.SrvSign.TLS, &p.SrvEnc.TLS, &std.TLS); err != nil {
+				t.Fatalf("NewBasicAutoSwitchConfig: %v", err)
+			}
+			scfg.Rand, scfg.Time = tlsx.NewDRBG(fmt.Sprint("ash", n)), tlsx.FixedTime
+		} else {
+			scfg = tlsx.AutoServer(p, std, fmt.Sprint("ash", n))
+		}
+		var hist []string
+		for i := 0; i < rapid.IntRange(3, 6).Draw(t, "clients"); i++ {
+			kind := rapid.SampledFrom([]string{"gm", "tls"}).Draw(t, "kind")
+			hist = append(hist, kind)
+			id := fmt.Sprint("ash", n, "c", i)
+			var ccfg *gmtls.Config
+			if kind == "gm" {
+				ccfg = tlsx.GMClient(p, id)
+			} else {
+				ccfg = tlsx.TLSClient(p, id)
+			}
+			cs, ss := []byte("from client "+id), []byte("from server "+id)
+			r := tlsx.Run(ccfg, scfg, tlsx.Script{ClientSend: cs, ServerSend: ss})
+			desc := fmt.Sprintf("clients so far %v on ONE auto-switch configuration | %s", hist, r.Describe())
+			if r.Client.Panic != nil || r.Server.Panic != nil {
+				t.Fatalf("endpoint panicked\n%s", desc)
+			}
+			if r.Client.HSErr != nil || r.Server.HSErr != nil || !bytes.Equal(r.Server.Received, cs) || !bytes.Equal(r.Client.Received, ss) {
+				t.Fatalf("a %s client that this configuration serves on its own was turned away after other clients had been served\n%s", kind, desc)
+			}
+			if gmv := r.Client.State.Version == tlsx.VersionGMSSL; gmv != (kind == "gm") {
+				t.Fatalf("a %s client ended up at version %04x\n%s", kind, r.Client.State.Version, desc)
+			}
+		}
+		R.Case(true, hx.HashKey("ash", fmt.Sprint(hist), n), "autoswitch_history")
+		R.Sample("autoswitch_history", map[string]interface{}{"clients": hist})
+	})
+}
